@@ -316,7 +316,7 @@ theorem err_leaves_everything (f : Follower) (n : Nat) (cs : List Chunk) (e : En
 
 /-- The F33 regression stream: one chunk whose payload was replaced together with its CRC. -/
 def w33 : List Chunk :=
-  [{ seq := 0, total := 1, term := 2, leader := 1, md := .label 3 2, sumOk := true, data := (0, false) }]
+  [{ seq := 0, total := 1, term := 2, leader := 1, md := .label 3 2, sumLen := 4, sumMatch := true, data := (0, .altered) }]
 
 example : receive { sm := .own, finals := [((1, 1), .old)], part := false } 1 w33 .closed =
     ({ sm := .own, finals := [((1, 1), .old)], part := true }, .err .archive, [⟨0, .acc, 1⟩]) := by decide
@@ -347,13 +347,49 @@ theorem finalize_crash_atomic (f : Follower) (n : Nat) (cs : List Chunk) (e : En
     · simp only [hp, hv, Bool.false_eq_true, if_false, List.mem_cons, List.mem_nil_iff, or_false] at hs
       rcases hs with rfl | rfl <;> exact Or.inl ⟨rfl, rfl⟩
 
+/-- **A checksum field that is not exactly 4 bytes long never validates** — so a chunk that lost both its payload and
+    its checksum (CRC32 of the empty string is 0, an empty field decodes to 0) is rejected, and no stream containing
+    such a chunk is accepted. -/
+theorem bad_checksum_length_rejected (cs : List Chunk) (e : End) (c : Chunk) (hc : c ∈ cs) (hl : c.sumLen ≠ 4) :
+    exact cs e = none ∧ ∀ f n, (receive f n cs e).2.1 ≠ .ok := by
+  have hso : c.sumOk = false := by simp [Chunk.sumOk, hl]
+  have hwf : ∀ (l : List Chunk) (k t ld : Nat), c ∈ l → wellFormedFrom k t ld l = false := by
+    intro l
+    induction l with
+    | nil => intro k t ld h; cases h
+    | cons x r ih =>
+      intro k t ld h
+      simp only [wellFormedFrom]
+      rcases List.mem_cons.mp h with rfl | h
+      · simp [hso]
+      · simp [ih (k + 1) t ld h]
+  have hex : exact cs e = none := by
+    cases cs with
+    | nil => cases hc
+    | cons c0 rest =>
+      cases e with
+      | hold => rfl
+      | closed => simp [exact, hwf (c0 :: rest) 0 c0.term c0.leader hc]
+  refine ⟨hex, ?_⟩
+  intro f n hok
+  obtain ⟨label, content, h, _⟩ := (stream_all_or_nothing f n cs e).1 hok
+  rw [hex] at h; cases h
+
+/-- The seeded-regression shape: a complete 2-chunk snapshot announced as 3 chunks, padded with a chunk that has no
+    payload and no checksum — rejected with a checksum error, nothing touched. -/
+example : (receive { sm := .own, finals := [((1, 1), .old)], part := false } 2
+    [{ seq := 0, total := 3, term := 2, leader := 1, md := .label 3 2, sumLen := 4, sumMatch := true, data := (0, .pristine) },
+     { seq := 1, total := 3, term := 2, leader := 1, md := .none, sumLen := 4, sumMatch := true, data := (1, .pristine) },
+     { seq := 2, total := 3, term := 2, leader := 1, md := .none, sumLen := 0, sumMatch := true, data := (1, .empty) }]
+    .closed).2.1 = .err .checksum := by decide
+
 /-! Non-vacuity: a genuine 3-chunk stream is accepted; the same stream with chunks 1 and 2 swapped is rejected. -/
 def genuine3 : List Chunk :=
-  [{ seq := 0, total := 3, term := 2, leader := 1, md := .label 3 2, sumOk := true, data := (0, true) },
-   { seq := 1, total := 3, term := 2, leader := 1, md := .none, sumOk := true, data := (1, true) },
-   { seq := 2, total := 3, term := 2, leader := 1, md := .none, sumOk := true, data := (2, true) }]
+  [{ seq := 0, total := 3, term := 2, leader := 1, md := .label 3 2, sumLen := 4, sumMatch := true, data := (0, .pristine) },
+   { seq := 1, total := 3, term := 2, leader := 1, md := .none, sumLen := 4, sumMatch := true, data := (1, .pristine) },
+   { seq := 2, total := 3, term := 2, leader := 1, md := .none, sumLen := 4, sumMatch := true, data := (2, .pristine) }]
 example : (receive { sm := .own, finals := [((1, 1), .old)], part := false } 3 genuine3 .closed).2.1 = .ok := by decide
-example : exact genuine3 .closed = some ((3, 2), [(0, true), (1, true), (2, true)]) := by decide
+example : exact genuine3 .closed = some ((3, 2), [(0, .pristine), (1, .pristine), (2, .pristine)]) := by decide
 example : (receive { sm := .own, finals := [((1, 1), .old)], part := false } 3
     [genuine3[0], genuine3[2], genuine3[1]] .closed).2.1 = .err .order := by decide
 
